@@ -33,6 +33,27 @@ CHECKS = {
         technique="deterministic simulation: seeded histories with an execution-log oracle against IR-level cone fingerprints",
         design_ref="DESIGN.md 4.1, 7 (C02)",
     ),
+    "C04": dict(
+        engine="P",
+        category="exploration",
+        text=("C01's histories plus dds.load of paths seen so far (kept by the last evaluation, by an earlier one, or never) "
+              "from the same and from a freshly forked process, and a direct read of <data_dir>/<path> on the local store; "
+              "oracle = model path table maintained from the dds-free reference in program order."),
+        note=PIPE_NOTE + " DBFS commits are covered by C19's machine.",
+        technique="deterministic simulation: seeded histories with cross-process loads against a model path table",
+        design_ref="DESIGN.md 4, 7 (C04)",
+    ),
+    "C09": dict(
+        engine="P",
+        category="exploration",
+        text=("Programs with dds.load at seeded placements (evaluated function, nested helper, kept function) whose path is "
+              "produced earlier / later in the same evaluation, by an earlier evaluation, or never; histories edit the "
+              "producer. Values against the reference with a program-order path table, re-execution against cone "
+              "fingerprints that include what the loaded path serves, and rejection (DDSException) of read-before-produce."),
+        note=PIPE_NOTE,
+        technique="deterministic simulation: seeded histories with load placements, reference path table and cone oracle",
+        design_ref="DESIGN.md 4, 7 (C09)",
+    ),
     "C06": dict(
         engine="F",
         category="fault_enumeration",
